@@ -92,12 +92,19 @@ IMPL_MOVE_RESET_FUNC(Fd)
 void Fd::close()
 {
     if (detail_ != nullptr && detail_->fd >= 0) {
-        if (detail_->close_func) {
-            detail_->close_func(detail_->fd);
-            detail_->close_func = nullptr;
-        } else
-            ::close(detail_->fd);
+        //! take the descriptor and the close function out of the record first: the close function may
+        //! close(), reset() or destroy this object or a copy of it, and must not find the descriptor
+        //! still there (it would be closed twice), nor may anything be written to the record afterwards
+        int fd = detail_->fd;
         detail_->fd = -1;
+
+        CloseFunc close_func;
+        close_func.swap(detail_->close_func);
+
+        if (close_func)
+            close_func(fd);
+        else
+            ::close(fd);
     }
 }
 
